@@ -8,11 +8,13 @@ canonical form = entries rounded to 1e-10, BFS to a fixed word length) plus S ov
   (exact zeros replaced by tolerance-sized numbers).  Each goes through rectangular, rectangular_phase_end,
   rectangular_MZ, rectangular_symmetric, triangular, triangular_compact, rectangular_compact, sun_compact.
 * complex symmetric matrices for takagi: ALL symmetric k x k matrices over the entry alphabet {0, 1, -1, 1j, .5},
-  each as is, + an asymmetric 1e-14 pattern (inside the documented symmetry tolerance) and + a symmetric complex
-  1e-14 pattern (splits degenerate singular values at the rounding boundary).
+  each as is, + an asymmetric 1e-14 pattern (inside the documented symmetry tolerance), + a symmetric complex
+  1e-14 pattern (splits degenerate singular values below the documented 13-decimal rounding) and + the same pattern
+  at 1e-12 (splits them just above it).
 * symplectic matrices (1..3 modes, xxpp ordering): BFS orbit of {R(j, pi/2), R(j, .6), S(j, .4), BS(j,j+1, pi/4),
   S2(j,j+1, .3)}; every orbit element S goes through bloch_messiah, and S D S^T through williamson for every D of the
-  symplectic-spectrum menu (degenerate and non-degenerate).
+  symplectic-spectrum menu (degenerate and non-degenerate).  Boundary of bloch_messiah's documented 9-decimal
+  rounding: A . S0(.4) S1(.4 + gap) . B for all pairs (A, B) of the passive two-mode orbit and gap in {0, 1e-12, 1e-8}.
 * graphs: all labelled simple graphs on <= 4 (thorough: 5) nodes x mean photon per mode {.5, 1} for graph_embed; all
   0/1 k x k biadjacency matrices (k <= 3, thorough 4) x the same means for bipartite_graph_embed.
 * invalid inputs (non-square, isometries, non-symmetric by 1e-6, non-unitary by 1e-6, non-symplectic, orthogonal
@@ -359,10 +361,19 @@ def spectrum_class(sv, eps=1e-9):
     return "degenerate" if len(sv) > 1 and float(np.min(np.diff(sv))) <= eps * max(1.0, float(sv[-1])) else "simple"
 
 
+TAKAGI_VARIANTS = {
+    # name -> class suffix; takagi documents that singular values are 'equal' when they agree after rounding to 13 decimals
+    "exact": "",
+    "asym-1e-14": "+noise-below-rounding",
+    "sym-1e-14": "+noise-below-rounding",
+    "sym-1e-12": "+noise-above-rounding",
+}
+
+
 def takagi_class(N, variant):
     base = "real" if float(np.max(np.abs(N.imag), initial=0.0)) <= 1e-13 else "complex"
     cls = base + "-" + spectrum_class(np.linalg.svd(N, compute_uv=False), eps=1e-9)
-    return cls + ("" if variant == "exact" else "+" + variant)
+    return cls + TAKAGI_VARIANTS[variant]
 
 
 def bloch_class(S):
@@ -372,6 +383,8 @@ def bloch_class(S):
         return "passive"
     if spectrum_class(sv) == "degenerate":
         return "degenerate"
+    if spectrum_class(sv, eps=1e-5) == "degenerate":
+        return "near-degenerate"
     return "simple"
 
 
@@ -860,10 +873,12 @@ def invalid_inputs(tier):
                 Dm = D.copy()
                 Dm[i, i] = -Dm[i, i]
                 out.append(("williamson", "non-positive", S @ Dm @ S.T, None))
-                Dz = D.copy()
-                Dz[i, i] = 0.0
-                Vz = S @ Dz @ S.T
-                out.append(("williamson", "non-positive", (Vz + Vz.T) / 2, None))
+                if is_diag(S, 0.0):
+                    # an exactly singular matrix is only representable when V stays exactly diagonal; for other S the zero
+                    # eigenvalue becomes +-1e-17 in floating point and the input is no longer unambiguously invalid
+                    Dz = D.copy()
+                    Dz[i, i] = 0.0
+                    out.append(("williamson", "non-positive", S @ Dz @ S.T, None))
             if quick:
                 break
         for i in range(dim):
@@ -942,7 +957,8 @@ def confirmed_invalid(name, kind, M):
     if kind in ("non-symplectic-by-1e-6", "non-symplectic", "anti-symplectic-reflection"):
         return float(np.linalg.norm(M.T @ omega(d // 2) @ M - omega(d // 2))) > 1e-7
     if kind == "non-positive":
-        return float(np.min(np.linalg.eigvalsh((M + M.T) / 2))) <= 1e-12 and float(np.max(np.abs(M - M.T))) < 1e-12
+        ev = float(np.min(np.linalg.eigvalsh((M + M.T) / 2)))
+        return float(np.max(np.abs(M - M.T))) < 1e-12 and (ev < -1e-9 or (is_diag(M, 0.0) and float(np.min(np.diag(M))) <= 0))
     if kind == "empty-graph":
         return not M.any()
     return False
@@ -962,14 +978,14 @@ def work(task):
                 check_mesh(name, V, res, case)
     elif kind == "TAK":
         _, k, lo, hi = task
-        ea, es = noise_asym(k), noise_sym(k)
+        ea, es, es12 = noise_asym(k), noise_sym(k), noise_sym(k, 1e-12)
         for idx in range(lo, hi):
             A = sym_from_index(k, idx)
             if not is_diag(A):
                 res.nt += 1
             if not np.linalg.norm(ea - ea.T) < 0.5e-13:
                 raise RuntimeError("harness bug: asymmetric pattern exceeds half of takagi's documented tolerance 1e-13")
-            for variant, N in (("exact", A), ("asym-1e-14", A + ea), ("sym-1e-14", A + es)):
+            for variant, N in (("exact", A), ("asym-1e-14", A + ea), ("sym-1e-14", A + es), ("sym-1e-12", A + es12)):
                 case = {"family": "takagi", "routine": "takagi", "M": enc(N), "variant": variant, "origin": f"alphabet index {idx}, k={k}, {variant}"}
                 check_takagi(N, variant, res, case)
     elif kind == "TAKINV":
@@ -994,6 +1010,12 @@ def work(task):
                 if not is_diag(V):
                     res.nt += 1
                 check_williamson(V, nu, res, {"family": "williamson", "routine": "williamson", "M": enc(V), "nu": list(nu), "origin": f"S D S^T, S = {origin}, D = diag{nu + nu}"})
+    elif kind == "SYMB":
+        # two-mode S = A . squeeze(r1, r2) . B with nearly equal squeezers, A and B passive orbit elements
+        for A, wa, B, wb, d in task[1]:
+            S = A @ sS(0, 0.4, 2) @ sS(1, 0.4 + d, 2) @ B
+            res.nt += 1
+            check_bloch(S, res, {"family": "bloch", "routine": "bloch_messiah", "M": enc(S), "origin": f"({wa}) . S0(.4) S1(.4 + {d:g}) . ({wb})"})
     elif kind == "GR":
         _, k, lo, hi = task
         for idx in range(lo, hi):
@@ -1030,8 +1052,8 @@ def ranges(total, step, lo=0):
 # ============================================================================= driver
 def run(ctx):
     quick = ctx.tier == "quick"
-    u_depth = 3 if quick else 4
-    s_depth = {1: 3, 2: 3, 3: 2} if quick else {1: 4, 2: 4, 3: 3}
+    u_depth = 4 if quick else 5
+    s_depth = {1: 4, 2: 3, 3: 2} if quick else {1: 5, 2: 5, 3: 3}
     tak_k = (1, 2, 3)
     gr_k = (1, 2, 3, 4) if quick else (1, 2, 3, 4, 5)
     bip_k = (1, 2, 3) if quick else (1, 2, 3, 4)
@@ -1092,6 +1114,19 @@ def run(ctx):
             tasks.append(("SYM", ch))
     validated += n_sympl
 
+    # ---- near-degenerate squeezers for bloch_messiah (documented: singular values are 'equal' when they agree after
+    #      rounding to 9 decimals): A . S0(.4) S1(.4 + d) . B, A and B from the passive two-mode orbit
+    pgens = [g for g in symplectic_generators(2) if not g[0].startswith("S")]
+    pst, ptr, plevels = bfs_orbit(pgens, 4, 2 if quick else 3, float)
+    states += len(pst)
+    transitions += ptr
+    gaps = (0.0, 1e-12, 1e-8)
+    orbit_info["passive_n2_for_near_degenerate_squeezers"] = {"generators": [g for g, _ in pgens], "word_length": 2 if quick else 3, "states": len(pst), "transitions": ptr, "new_states_per_depth": plevels, "squeezer_gaps": list(gaps)}
+    symb = [(A, word_str(pgens, wa), B, word_str(pgens, wb), d) for A, wa in pst for B, wb in pst for d in gaps]
+    n_symb = len(symb)
+    for ch in chunks(symb, 150):
+        tasks.append(("SYMB", ch))
+
     # ---- alphabet families
     n_tak = 0
     for k in tak_k:
@@ -1120,10 +1155,10 @@ def run(ctx):
         tasks.append(("INV", ch))
 
     # longest tasks first
-    order = {"U": 0, "SYM": 1, "TAK": 2, "BIP": 3, "GR": 4, "TAKINV": 5, "INV": 6}
+    order = {"U": 0, "SYM": 1, "SYMB": 2, "TAK": 3, "BIP": 4, "GR": 5, "TAKINV": 6, "INV": 7}
     tasks.sort(key=lambda t: order[t[0]])
     done = 0
-    for r in ctx.pmap(work, tasks, chunksize=1):
+    for r in ctx.pmap(work, tasks, chunksize=1, ordered=True):  # ordered: the recorded first case per signature is deterministic
         ctx.add(r)
         done += 1
         if ctx.time_left() < 0:
@@ -1133,17 +1168,19 @@ def run(ctx):
 
     n_sym_wil = sum(orbit_info[f"symplectic_n{n}"]["states"] * len(WILLIAMSON_D[n]) for n in (1, 2, 3))
     n_u_calls = n_unitaries * len(MESHES)
-    expected = n_u_calls + 3 * n_tak + n_tak_inv + n_sympl + n_sym_wil + 2 * n_graphs + 2 * n_bip + len(inv)
+    n_var = len(TAKAGI_VARIANTS)
+    expected = n_u_calls + n_var * n_tak + n_tak_inv + n_sympl + n_symb + n_sym_wil + 2 * n_graphs + 2 * n_bip + len(inv)
     if ctx.exhaustive and ctx.n != expected:
         raise RuntimeError(f"evaluated {ctx.n} routine calls, the enumeration has {expected}")
     ctx.cov["states"] = states
     ctx.cov["transitions"] = transitions
-    ctx.cov["traces_validated_against_impl"] = validated + 3 * n_tak + n_sym_wil + n_graphs * 2 + n_bip * 2
+    ctx.cov["traces_validated_against_impl"] = validated + n_var * n_tak + n_symb + n_sym_wil + n_graphs * 2 + n_bip * 2
     ctx.cov["matrices_pushed_through_real_routines"] = {
         "unitaries (orbit + signed permutations + perturbed permutations + DFT) x 8 mesh routines": n_unitaries,
         "symplectic orbit elements -> bloch_messiah": n_sympl,
         "S D S^T -> williamson": n_sym_wil,
-        "symmetric alphabet matrices x 3 variants -> takagi": 3 * n_tak,
+        "A . S0(.4) S1(.4 + gap) . B near-degenerate squeezers -> bloch_messiah": n_symb,
+        "symmetric alphabet matrices x 4 variants (exact, 2 patterns of 1e-14, 1 of 1e-12) -> takagi": n_var * n_tak,
         "graphs x 2 means -> graph_embed": 2 * n_graphs,
         "biadjacency matrices x 2 means -> bipartite_graph_embed": 2 * n_bip,
         "invalid inputs (all routines)": len(inv) + n_tak_inv,
@@ -1188,6 +1225,9 @@ def run(ctx):
         "ops.Interferometer(mesh='triangular') implements (property C02)",
         "E = T(n, m, theta, phi) = BS(theta, 0) R_n(phi) for rectangular*, E = Mach-Zehnder(m, n, internal, external) = BS50 R_m(internal) BS50 R_m(external) for *_MZ / *_symmetric; the library rounds its own MZ matrix to 14 decimals, which is inside the 1e-9 tolerance",
         "valid-input tolerance: perturbations of 1e-14 per entry are inside every documented acceptance tolerance (takagi 1e-13 on |N - N^T|, meshes 1e-11 / 1e-12 on |VV^+ - 1|) and must therefore be decomposed to 1e-9",
+        "williamson: the docstring prints V = S^T Db S, but the consumer (ops.Gaussian, documented 'V = S D S^T') and the whole library use V = S Db S^T; "
+        "the latter is checked, the printed formula is tallied in stats williamson:docstring-formula-* (it fails for every non-trivial input: documentation defect)",
+        "near-degenerate inputs (singular values closer than 1e-5 but further apart than the routine's documented rounding) are valid inputs and are held to the same 1e-9 accuracy",
         "williamson inputs are symmetrised ((V + V^T)/2) after forming S D S^T in floating point; symplectic spectra are known by construction",
         "graph_embed: the empty graph has no scaling that reaches a positive mean photon number and is treated as invalid (must raise); mean photon convention: sum_i sinh(r_i)^2 = n * mean_photon_per_mode, for bipartite_graph_embed with n = size of A and r_i the n two-mode squeezing parameters",
         "any exception type counts as rejection of an invalid input (types are tallied in stats rejected-with:*)",
